@@ -7,7 +7,13 @@ Digits(n) == [i \in 1..n |-> 48 + (i % 10)]
 MC_Builders == {1}
 MC_Threads == {1}
 \* "", "7", "K", "k", "7K", 17 digits (numeric tail of 2), 41 digits (V1-L numeric capacity), 42 digits (first V2 length)
-MC_InputsQuick == { <<>>, <<55>>, <<75>>, <<107>>, <<55,75>>, Digits(41) }
+\* <<52,50>> = "42": 21 header+payload bits, so the 4-bit terminator crosses a byte boundary (a 3-bit one would not)
+MC_InputsQuick == { <<>>, <<55>>, <<75>>, <<107>>, <<55,75>>, <<52,50>>, Digits(41) }
+MC_InputsCov == { <<55,75>>, Digits(41) }
+MC_LevelsCov == {"H"}
+MC_VersionsCov == {-1, 1}
+MC_MasksCov == {-1}
+MC_ModesCov == {-1}
 MC_InputsThorough == MC_InputsQuick \cup { Digits(17), Digits(42), <<75, 55, 32, 36>>, <<0, 255, 236, 17>>, [i \in 1..17 |-> 107], [i \in 1..25 |-> 65 + (i % 26)] }
 MC_LevelsQuick == {"none", "L", "H"}
 MC_LevelsAll == {"none", "L", "M", "Q", "H"}
